@@ -1,11 +1,14 @@
 #!/usr/bin/env python3
 """collect_seeds.py — copy confirmed seeded changes from /tmp/seed/<ID>/out/<k>/ into /verif/seeded/<ID>-<k>/ and write the
 summary table seeded/README.md (which checks catch which changes)."""
-import glob, json, os, shutil
+import glob, json, os, shutil, sys
 
-rows = []
-for d in sorted(glob.glob('/tmp/seed/C*/out/[123]')):
-    pid = d.split('/')[3]; k = d.split('/')[-1]
+# usage: collect_seeds.py [<source root, e.g. /tmp/seed2> [<offset added to the seed number, e.g. 3>]]
+# without arguments only seeded/README.md is rewritten from the meta.json files already under /verif/seeded
+src = sys.argv[1] if len(sys.argv) > 1 else None
+off = int(sys.argv[2]) if len(sys.argv) > 2 else 0
+for d in (sorted(glob.glob(src + '/C*/out/[123]')) if src else []):
+    pid = d.split('/')[-3]; k = str(int(d.split('/')[-1]) + off)
     if not os.path.exists(os.path.join(d, 'patch.diff')):
         continue
     meta = {}
@@ -34,7 +37,10 @@ for d in sorted(glob.glob('/tmp/seed/C*/out/[123]')):
                     checks_run=checks, caught_by=caught, how_run='tools/try_seed.py: git -C /repo apply patch.diff; bin/vcheck <id> --tier quick; git -C /repo checkout -- .')
     meta_out.update(extra)
     json.dump(meta_out, open(os.path.join(out, 'meta.json'), 'w'), indent=1)
-    rows.append((pid, k, (meta.get('summary') or '')[:150].replace('\n', ' ').replace('|', '/'), ', '.join(meta_out.get('caught_by') or []) or '—', extra.get('note', '')))
+rows = []
+for mp in sorted(glob.glob('/verif/seeded/C*-*/meta.json'), key=lambda p: (p.split('/')[-2].split('-')[0], int(p.split('/')[-2].split('-')[1]))):
+    m = json.load(open(mp)); pid, k = mp.split('/')[-2].split('-')
+    rows.append((pid, k, (m.get('summary') or '')[:150].replace('\n', ' ').replace('|', '/'), ', '.join(m.get('caught_by') or []) or '—', m.get('note', '')))
 with open('/verif/seeded/README.md', 'w') as f:
     f.write('# Seeded changes (written by independent sub-agents from the property text alone)\n\nEach directory holds `patch.diff` (applies to /repo at the commit recorded in meta.json or by fuzz), '
             '`demo_test.go` (fails with the change, passes without) and `meta.json` (what it breaks, what it needs, what was run, which checks report a VIOLATION).\n\n'
